@@ -1,6 +1,6 @@
 (* Unfolding equations of the VyCore interpreter (one step of fuel).  GENERATED from VyCore.v by
-   copying the function bodies (see notes/C01.md); each is proved by reflexivity, so a copy error cannot
-   go unnoticed. *)
+   tools/vlib/c01_unfold_gen.py (copies the function bodies); each is proved by reflexivity, so a copy error
+   cannot go unnoticed. *)
 From Coq Require Import ZArith List Bool.
 From Verif Require Import C01.VyCore.
 Import ListNotations.
@@ -86,6 +86,8 @@ Lemma eval_S f e s :
           if (0 <=? z) && (z <? Z.of_nat (length l)) then
             match nth_error l (Z.to_nat z) with Some v => ret v s2 | None => Fail Stuck end
           else Fail Revert
+      | VMap d m, _ =>
+          match key_of vi with Some z => ret (mlook d z m) s2 | None => Fail Stuck end
       | _, _ => Fail Stuck
       end
   | EFld a k =>
@@ -160,7 +162,7 @@ Lemma resolve_S f p cur s :
   | inr k :: r =>
       match cur with
       | VList l => match nth_error l k with
-                   | Some w => do cp, s1 <- resolve f r w s; ret (k :: cp) s1
+                   | Some w => do cp, s1 <- resolve f r w s; ret (Z.of_nat k :: cp) s1
                    | None => Fail Stuck
                    end
       | _ => Fail Stuck
@@ -171,10 +173,15 @@ Lemma resolve_S f p cur s :
       | VList l, VInt z =>
           if (0 <=? z) && (z <? Z.of_nat (length l)) then
             match nth_error l (Z.to_nat z) with
-            | Some w => do cp, s2 <- resolve f r w s1; ret (Z.to_nat z :: cp) s2
+            | Some w => do cp, s2 <- resolve f r w s1; ret (z :: cp) s2
             | None => Fail Stuck
             end
           else Fail Revert
+      | VMap d m, _ =>
+          match key_of vi with
+          | Some z => do cp, s2 <- resolve f r (mlook d z m) s1; ret (z :: cp) s2
+          | None => Fail Stuck
+          end
       | _, _ => Fail Stuck
       end
   end.
